@@ -3,6 +3,7 @@ package props
 import (
 	"fmt"
 	"reflect"
+	"strings"
 	"testing"
 
 	"pgregory.net/rapid"
@@ -150,6 +151,50 @@ func (w *c01walk) walk(n *model.Node, in any, orig, dst reflect.Value, where str
 			eorig = orig.Elem()
 		}
 		w.walk(n.Elem, in, eorig, dst.Elem(), where)
+	case n.Kind == model.KPre:
+		// the wrapped schema governs what the Preprocess function made of the value (a failing function or a
+		// type mismatch is an issue: such executions never get here)
+		if parse {
+			if n.PreFn == "any" {
+				w.walk(n.Elem, in, orig, dst, where)
+				return
+			}
+			s, ok := in.(string)
+			if !ok {
+				return
+			}
+			switch n.PreFn {
+			case "trim":
+				w.walk(n.Elem, strings.TrimSpace(s), orig, dst, where)
+			case "split":
+				parts := []any{}
+				for _, p := range strings.Split(s, ",") {
+					parts = append(parts, p)
+				}
+				w.walk(n.Elem, parts, orig, dst, where)
+			case "maybe":
+				if !strings.Contains(s, "bad") {
+					w.walk(n.Elem, s, orig, dst, where)
+				}
+			case "ptr": // a nil pointer result is no value at all
+				if strings.Contains(s, "none") {
+					w.walk(n.Elem, nil, orig, dst, where)
+				} else {
+					w.walk(n.Elem, strings.TrimSpace(s), orig, dst, where)
+				}
+			}
+			return
+		}
+		if orig.Kind() == reflect.String {
+			switch n.PreFn {
+			case "vtrim":
+				w.walk(n.Elem, nil, reflect.ValueOf(strings.TrimSpace(orig.String())), dst, where)
+			case "vmaybe":
+				if !strings.Contains(orig.String(), "bad") {
+					w.walk(n.Elem, nil, reflect.ValueOf(orig.String()+"+"), dst, where)
+				}
+			}
+		}
 	case n.Kind == model.KCustom:
 		w.tested++
 		if !model.EvalFunc(n.CustomFn, dst) {
@@ -227,6 +272,7 @@ func TestC01(t *testing.T) {
 	for _, mode := range []string{"parse", "validate"} {
 		cfg := model.DefaultCfg(mode)
 		cfg.PPost = 0
+		cfg.PPre = 0.06 // Preprocess wrappers: the wrapped schema's constraints hold for what the function returned
 		cfg.PCatch, cfg.PVary, cfg.PAbsent, cfg.PJunk, cfg.PTestSat, cfg.PClean, cfg.PLight = 0.3, 0.2, 0.1, 0.04, 0.95, 0.45, 0.5
 		if h.Thorough() {
 			cfg.MaxDepth, cfg.MaxFields, cfg.MaxElems, cfg.ManyFields = 4, 6, 6, true
